@@ -46,3 +46,30 @@ func TestTableFootRows(t *testing.T) {
 		}
 	}
 }
+
+// C19 / R19.13: a paragraph, heading or table met as a direct child of a list flushed the pending items AND cleared
+// ctx.inList, so every later <li> of the same list was ignored; an <li> outside any list was ignored too.
+func TestListItemsAfterBlockInsideListAreKept(t *testing.T) {
+	for _, src := range []string{
+		`<ul><li>one</li><p>para inside list</p><li>two</li></ul><p>after</p>`,
+		`<ol><li>one</li><h3>heading inside list</h3><li>two</li></ol>`,
+		`<ul><li>one</li><table><tr><td>cell</td></tr></table><li>two</li></ul>`,
+		`<div><li>one</li><li>two</li></div>`,
+	} {
+		for _, mode := range []htmldoc.NavigationExclusionMode{htmldoc.NavigationExclusionNone, htmldoc.NavigationExclusionStandard} {
+			r, err := htmldoc.OpenReader(strings.NewReader("<html><body>" + src + "</body></html>"))
+			if err != nil {
+				t.Fatal(err)
+			}
+			txt, err := r.TextWithOptions(htmldoc.ExtractOptions{NavigationExclusion: mode})
+			if err != nil {
+				t.Fatal(err)
+			}
+			for _, w := range []string{"one", "two"} {
+				if n := strings.Count(txt, w); n != 1 {
+					t.Errorf("mode %v %s: %q returned %d times in %q, want once", mode, src, w, n, txt)
+				}
+			}
+		}
+	}
+}
